@@ -909,6 +909,11 @@ func (e *Env) call(x *ECall) Val {
 			e.fail("unknown type %s", tn)
 		}
 		return Val{T: v.T, S: g.sortOf(t), G: t}
+	case "sentb":
+		// sentb(ch, k): the k-th value sent on a channel of bool
+		v, k := arg(0), arg(1)
+		boxed := sx("select", sx("select", g.heap(e.st, "ChanV", "(Array Int (Array Int Int))"), v.T), k.T)
+		return Val{T: g.unboxAny(boxed, "Bool"), S: "Bool"}
 	case "sentf":
 		// sentf(ch, k, "field"): field of the k-th value sent on a channel of struct values
 		v, k := arg(0), arg(1)
@@ -1555,6 +1560,10 @@ func (g *Gen) call(c *ssa.CallCommon, pos token.Pos, isGo bool) Val {
 	if g.ct != nil {
 		for _, s := range g.ct.Sites {
 			if s.Callee == sk && s.Ord == ord {
+				if g.siteHit == nil {
+					g.siteHit = map[*SiteAssert]bool{}
+				}
+				g.siteHit[s] = true
 				env := g.siteEnv(ci, c, args)
 				if s.Assume {
 					g.assume(env.boolOf(s.C.E))
